@@ -12,6 +12,9 @@ def handleC13 : List String → String
     if n == "pop" && (_pos == "method" || _pos == "staticmethod" || _pos == "traitmethod") then "unmodelled"
     else if generatedTemporaries.contains n || reliedOnTypeNames.contains n || n == "incan_stdlib" then "unmodelled"
     else if validTok (emitTok n) then "same" else "invalid-identifier"
+  | ["rename", _file, _name, kw] =>
+    -- a name the checker accepts is emitted as a valid identifier wherever it stands (emitted_identifier_valid)
+    if validTok (emitTok kw) then "generated" else "invalid-identifier"
   | ["siblings", _n] =>
     -- emit_injective: distinct names stay distinct, so every binding keeps its own value
     "ran code=0 out=1_2_3_4_5_6_7_8_9_12_43_2 panic=-"
